@@ -112,6 +112,19 @@ CHECKS = {
         technique="TLA+ planner model (TLC exhaustive) + exhaustive/sampled replay of the universe on the code + TLC trace monitor",
         design_ref="DESIGN.md section 5 C09",
     ),
+    "C10": dict(
+        level="model_checking",
+        text="SortBuffer.tla models the order a sorting buffer implements (optional wrapper with nulls first/last, "
+             "reversedColumnBuffer for descending columns, column-by-column Less) and TLC checks it equals the declared "
+             "order for every pair of rows and all 16 two-column configurations. Row lists x configurations from TLC are "
+             "sorted through GenericBuffer[T], Buffer, RowBuffer[T], a sorted buffer written with WriteRowGroup and the "
+             "SortingWriter with several run sizes and duplicate dropping; SortMon.tla checks permutation with intact rows, "
+             "declared order, agreement with Schema.Comparator and the recorded sorting metadata.",
+        note="Two optional sorting columns, keys over {null,1,2}, <=3 abstract rows scaled to runs of 9/70; repeated "
+             "sorting columns not covered.",
+        technique="TLA+ order model (TLC exhaustive) + TLC-enumerated inputs replayed on the code + TLC trace monitor",
+        design_ref="DESIGN.md section 5 C10",
+    ),
     "C13": dict(
         level="fault_enumeration",
         text="Corrupt.tla models which load routine brings a page into memory (readPage in the stream vs the lazy "
